@@ -144,7 +144,7 @@ fn result_tokens(r: &str) -> Vec<String> {
 
 fn gen_tcp_frame(rng: &mut Rng, codec: &str) -> Vec<u8> {
     let tid = rng.u16();
-    let unit = rng.u8();
+    let unit = rng.unit();
     let pdu = match codec {
         "tcpsrv" => spec::request_bytes(&gen_request(rng, None)).unwrap_or(vec![0x11]),
         "tcpcli" => {
@@ -446,7 +446,7 @@ pub fn gen_c04(out: &mut Out, rng: &mut Rng, thorough: bool) {
     }
     // … and through a client whose previous call was abandoned in the middle of its write
     for _ in 0..(if thorough { 5_000 } else { 400 }) {
-        let unit = rng.u8();
+        let unit = rng.unit();
         let r1 = loop {
             let r = gen_request(rng, Some(2));
             if !matches!(r, Request::Custom(..)) {
